@@ -45,7 +45,7 @@ impl Property for C08 {
         "C08"
     }
     fn rule(&self) -> &'static str {
-        "proptest: retention in {0,1,2,3,5,100,2^63,u64::MAX-3,u64::MAX-1,u64::MAX}, 1-4 initial sets, history of <=9 (quick) / <=14 (thorough) rotation attempts (proving set = any installed set, bypass flag, operator authorisation), optionally with up to 24 days passing before a step. After construction and after every step EVERY installed set is probed on both paths: validate_proof over a fresh data hash and approve_messages of a unique message. Oracle: honoured iff current_epoch - epoch(set) <= retention (validate_proof's flag true exactly for the newest set); a rotation attempt succeeds iff the proving set is the newest (no bypass) or within the window (bypass with operator authorisation). non-trivial = some probe lies exactly on the boundary (current - epoch in {retention, retention+1}); distinct by Debug hash"
+        "proptest: retention in {0,1,2,3,5,100,2^63,u64::MAX-3,u64::MAX-1,u64::MAX}, 1-4 initial sets, history of <=9 (quick) / <=14 (thorough) rotation attempts (proving set = any installed set, bypass flag, operator authorisation), optionally with up to 24 days passing before a step. After construction and after every step EVERY installed set is probed on both paths: validate_proof over a fresh data hash and approve_messages of a unique message (sets outside the window additionally with a batch of already approved messages). Oracle: honoured iff current_epoch - epoch(set) <= retention (validate_proof's flag true exactly for the newest set); a rotation attempt succeeds iff the proving set is the newest (no bypass) or within the window (bypass with operator authorisation). non-trivial = some probe lies exactly on the boundary (current - epoch in {retention, retention+1}); distinct by Debug hash"
     }
     fn cases(&self, tier: Tier) -> u64 {
         tier.pick(3000, 40000)
@@ -68,6 +68,7 @@ impl Property for C08 {
         }
         let dest = Address::generate(&env);
         let mut probe_no: u64 = 0;
+        let mut last_approved: Option<Message> = None;
         let boundary = std::cell::Cell::new(false);
 
         let mut probe_all = |installed: &Vec<BuiltSet>, model: &SignerModel, at: &str, cx: &mut Cx| -> Result<(), String> {
@@ -115,9 +116,16 @@ impl Property for C08 {
                 if live {
                     cx.count("must_succeed");
                     ensure_p!(r.is_ok() && approved, "{}: approval by set installed at epoch {} refused (current {}, retention {}): {:?}", at, e, model.epoch, retention, r);
+                    last_approved = Some(m.clone());
                 } else {
                     cx.count("must_fail");
                     ensure_p!(r.is_err() && !approved, "{}: approval by set installed at epoch {} honoured although current epoch is {} and retention {}", at, e, model.epoch, retention);
+                    // a batch that would change nothing (its only message is already approved) is no excuse either
+                    if let Some(old) = &last_approved {
+                        let r2 = gw.approve(&env, s, &[old.clone()]);
+                        cx.count("must_fail");
+                        ensure_p!(r2.is_err(), "{}: a proof from the set installed at epoch {} (outside the window: current {}, retention {}) was accepted for a batch of already approved messages", at, e, model.epoch, retention);
+                    }
                 }
             }
             Ok(())
